@@ -3,4 +3,4 @@ sys.path.insert(0, os.path.dirname(os.path.dirname(os.path.abspath(__file__))))
 from engine.common import main_wrapper
 from checks.driver import make_main
 if __name__ == '__main__':
-    main_wrapper(make_main('C01'))
+    main_wrapper(make_main('C11'))
